@@ -68,72 +68,153 @@ def subtree_has(root, target):
     return bool(found)
 
 
+RANK = {"u8": 1, "u16": 2, "u32": 4, "u64": 8, "usize": 8, "u128": 16}
+ARITH = ("Add", "Sub", "Mul", "Div", "Rem")
+
+
+def site_inventory(F, f):
+    """(kind, line, col) of every built-in arithmetic / shift operation, every Shr/Shl trait call and every narrowing integer cast
+    written in the function (and its closures): the sites the interpretation below must have evaluated"""
+    out = set()
+    bodies = [F.bodies[f["path"]]] + [b for q, b in F.bodies.items() if q.startswith(f["path"] + "::{closure")]
+    for body in bodies:
+        root = body["thir"]["body"]
+        for n, ps in find_all(root, lambda n: n["k"] in ("Binary", "AssignOp") and n["op"].replace("Assign", "") in ARITH + ("Shl", "Shr")):
+            if n["l"]["k"] == "Lit" and n["r"]["k"] == "Lit":
+                continue
+            out.add(("shift" if n["op"].replace("Assign", "") in ("Shl", "Shr") else "arith", n.get("line"), n.get("col")))
+        for n, ps in find_all(root, lambda n: n["k"] == "Call" and n["fun"]["k"] == "FnRef" and n["fun"]["name"] in ("shr", "shl")
+                              and (n["fun"].get("trait") or "").startswith("std::ops::Sh")):
+            out.add(("shift", n.get("line"), n.get("col")))
+        for n, ps in find_all(root, lambda n: n["k"] == "Cast"):
+            src, dst = F.types[n["e"]["ty"]]["s"], F.types[n["ty"]]["s"]
+            if src in RANK and dst in RANK and RANK[dst] < RANK[src]:
+                out.add(("cast", n.get("line"), n.get("col")))
+    return out
+
+
+def trace_hooks(F, out_s):
+    """the uninterpreted-function hooks plus a trace of every arithmetic operation, shift and integer cast that is evaluated"""
+    from ..absint import SymV, IntV, LinV
+    h = euf_hooks(F, out_s)
+    base_call, base_binop = h["call"], h["binop"]
+
+    def tyname(v):
+        t = getattr(v, "ty", None)
+        return F.types[t]["s"] if isinstance(t, int) else None
+
+    def describe(v):
+        """(kind, detail): 'lit' n | 'widened-u8' | 'other'"""
+        if isinstance(v, IntV):
+            return ("lit", v.n)
+        src = getattr(v, "cast_from", None)
+        if isinstance(v, SymV) and src is not None and tyname(src) == "u8" and tyname(v) in ("u16", "u32", "u64", "usize", "u128"):
+            return ("widened-u8", v.name)
+        if isinstance(v, SymV) and tyname(v) == "u8":
+            return ("u8", v.name)
+        return ("other", repr(v)[:60])
+
+    def call(it, callee, fnref, args, n, fr):
+        last = callee.rsplit("::", 1)[-1]
+        if last in ("shr", "shl") and "ops::Sh" in callee and len(args) == 2:
+            a = it.val_force(args[1])
+            it.emit("shift", amount=repr(a).replace("?", ""), lit=isinstance(a, IntV), line=n.get("line"), col=n.get("col"), how="trait")
+        return base_call(it, callee, fnref, args, n, fr)
+
+    def binop(it, op, l, r, n):
+        o = op.replace("Assign", "")
+        if n is not None and o in ARITH:
+            ty = F.types[n["ty"]]["s"] if n.get("k") == "Binary" else F.types[n["l"]["ty"]]["s"]
+            it.emit("arith", op=o, ty=ty, l=describe(l), r=describe(r), line=n.get("line"), col=n.get("col"))
+        if n is not None and o in ("Shl", "Shr"):
+            it.emit("shift", amount=repr(r).replace("?", ""), lit=isinstance(r, IntV), line=n.get("line"), col=n.get("col"), how="builtin")
+        return base_binop(it, op, l, r, n)
+
+    def cast(it, v, out, n):
+        src, dst = tyname(v), tyname(out)
+        if src in RANK and dst in RANK and RANK[dst] < RANK[src]:
+            it.emit("narrow", src=v.name, src_ty=src, dst_ty=dst, line=n.get("line"), col=n.get("col"))
+    return {"call": call, "binop": binop, "cast": cast}
+
+
+def is_width_term(t):
+    t = Order.strip(t)
+    return t == "count_zeros(zero())" or t.endswith("::BITS") or t == "BITS" or "size_of" in t
+
+
 def run_config(ctx, rep, cfg, F):
+    from ..absint import explore, default_args, BoolV
     n_shift = n_arith = n_cast = 0
+    contains_paths = zero_paths = None
     for f in F.lib_fns():
-        if not in_scope(F, f):
+        if not in_scope(F, f) or f["path"] not in F.bodies:
             continue
         short = F.short_of[f["path"]]
-        bodies = [(short, F.bodies[f["path"]])] + [(F.short_of.get(q, q), b) for q, b in F.bodies.items() if q.startswith(f["path"] + "::{closure")]
-        for bshort, body in bodies:
-            root = body["thir"]["body"]
-            # ---- R17.1
-            for n, ps in find_all(root, lambda n: n["k"] == "Call" and n["fun"]["k"] == "FnRef" and n["fun"]["name"] in ("shr", "shl")
-                                  and (n["fun"].get("trait") or "").startswith("std::ops::Sh")):
-                n_shift += 1
-                amount = n["args"][1]
-                if amount["k"] == "Lit":
-                    rep.ok("R17.1", bshort, "constant shift")
-                    continue
-                guarded = False
-                for par in reversed(ps):
-                    if par["k"] == "If" and par.get("else") is not None and subtree_has(par["else"], n):
-                        c = par["cond"]
-                        if c["k"] == "Binary" and c["op"] == "Eq" and contains_call(c, WIDTH_CALLS):
-                            guarded = True
-                            break
-                if guarded:
-                    rep.ok("R17.1", bshort, "shift guarded by amount == width test", sample={"fn": bshort, "line": n.get("line")})
-                else:
-                    rep.bad("R17.1", bshort, "unguarded-shift", "%s (line %s) shifts a representation by a variable amount without a checked shift "
-                            "or an enclosing `amount == bit width` test: a shift by the full width panics in debug builds and is "
-                            "wrong in release builds" % (bshort, n.get("line")), config=cfg)
-            for n, ps in find_all(root, lambda n: n["k"] == "Binary" and n["op"] in ("Shl", "Shr")):
-                n_shift += 1
-                if n["r"]["k"] != "Lit":
-                    rep.bad("R17.1", bshort, "unguarded-builtin-shift", "%s (line %s): built-in shift by a variable amount" % (bshort, n.get("line")), config=cfg)
-            # ---- R17.2 arithmetic
-            for n, ps in find_all(root, lambda n: n["k"] in ("Binary", "AssignOp") and n["op"].replace("Assign", "") in ("Add", "Sub", "Mul", "Div", "Rem")):
-                n_arith += 1
-                ty = F.types[n["ty"]]["s"] if n["k"] == "Binary" else F.types[n["l"]["ty"]]["s"]
-                l, r = n["l"], n["r"]
-                def small_lit(x):
-                    return x["k"] == "Lit" and isinstance(x.get("int"), int) and 0 <= x["int"] <= 256
-                def widened_u8(x):
-                    return x["k"] == "Cast" and F.types[x["e"]["ty"]]["s"] == "u8" and F.types[x["ty"]]["s"] in ("u32", "usize", "u64", "u16")
-                op = n["op"].replace("Assign", "")
-                if op == "Add" and ty in ("u32", "usize", "u64", "u16") and ((small_lit(l) and widened_u8(r)) or (small_lit(r) and widened_u8(l))):
-                    rep.ok("R17.2", bshort, "small literal + widened u8", sample={"fn": bshort, "line": n.get("line"), "type": ty})
-                else:
-                    rep.bad("R17.2", bshort, "unjustified-%s-%s" % (op.lower(), ty), "%s (line %s): `%s` in %s is not of the form `small literal + (u8 as wider)`: "
-                            "it can overflow for bit indices / lengths up to 255 (panic in debug, wrap in release)" % (bshort, n.get("line"), op, ty), config=cfg)
-            # narrowing casts
-            for n, ps in find_all(root, lambda n: n["k"] == "Cast"):
-                src, dst = F.types[n["e"]["ty"]]["s"], F.types[n["ty"]]["s"]
-                rank = {"u8": 1, "u16": 2, "u32": 4, "u64": 8, "usize": 8, "u128": 16}
-                if src in rank and dst in rank and rank[dst] < rank[src]:
-                    n_cast += 1
-                    e = n["e"]
-                    if e["k"] == "Call" and e["fun"]["k"] == "FnRef" and e["fun"]["name"] == "leading_zeros" and dst == "u8":
-                        rep.ok("R17.2", bshort, "leading_zeros() as u8 (<= 128)")
+        want = site_inventory(F, f)
+        out_s = F.types[f["output"]]["s"]
+        paths = explore(F, f["path"], default_args(F, f["path"]), {"loop_bound": 2, "hooks": trace_hooks(F, out_s), "opaque_branch_ok": True}, max_paths=3000)
+        if short == "Prefix::contains":
+            contains_paths = paths
+        if short == "Prefix::zero":
+            zero_paths = paths
+        if want:
+            C.report_unrecognised(rep, "R17.1", short, paths, F)
+        seen = set()
+        for p in paths:
+            O = None
+            for e in p.events:
+                if e.kind == "shift":
+                    seen.add(("shift", e["line"], e["col"]))
+                    if e["lit"]:
+                        rep.ok("R17.1", short, "constant shift")
+                        continue
+                    if O is None:
+                        O = Order(p)
+                    amt = Order.strip(e["amount"])
+                    ws = [t for t in list(O.le) + [x for xs in O.le.values() for x in xs] + [x for ab in O.ne for x in ab] if is_width_term(t)]
+                    ok = any(O.differs(amt, w) or (O.leq(amt, w) and (Order.strip(amt), Order.strip(w)) in {(Order.strip(a), Order.strip(b)) for a, b in O.lt}) for w in ws)
+                    if ok:
+                        rep.ok("R17.1", short, "shift on a path where the amount differs from the bit width", sample={"fn": short, "line": e["line"], "amount": amt})
                     else:
-                        rep.bad("R17.2", bshort, "narrowing-cast-%s-%s" % (src, dst), "%s (line %s): narrowing cast %s as %s of a value that is not a "
-                                "leading_zeros() count" % (bshort, n.get("line"), src, dst), config=cfg)
-    check_lcp(ctx, rep, cfg, F)
-    check_from_repr_len(ctx, rep, cfg, F)
+                        rep.bad("R17.1", short, "unguarded-shift", "%s (line %s) shifts a representation by the variable amount `%s` on a path that has not "
+                                "established that the amount differs from the bit width (no checked shift, no comparison with count_zeros(0) / BITS): a shift by "
+                                "the full width panics in debug builds and is wrong in release builds" % (short, e["line"], amt[:60]), config=cfg)
+                elif e.kind == "arith":
+                    seen.add(("arith", e["line"], e["col"]))
+                    l, r = e["l"], e["r"]
+                    small = lambda x: x[0] == "lit" and 0 <= x[1] <= 256
+                    if e["op"] == "Add" and e["ty"] in ("u16", "u32", "u64", "usize", "u128") and ((small(l) and r[0] == "widened-u8") or (small(r) and l[0] == "widened-u8")):
+                        rep.ok("R17.2", short, "small literal + widened u8", sample={"fn": short, "line": e["line"], "type": e["ty"]})
+                    elif e["op"] in ("Div", "Rem") and r[0] == "lit" and r[1] >= 1 and e["ty"] in RANK:
+                        rep.ok("R17.2", short, "unsigned division / remainder by a non-zero literal")
+                    elif e["op"] == "Mul" and e["ty"] in ("u32", "u64", "usize", "u128") and ((small(l) and r[0] == "widened-u8") or (small(r) and l[0] == "widened-u8")):
+                        rep.ok("R17.2", short, "small literal * widened u8 in a type of at least 32 bits")
+                    else:
+                        rep.bad("R17.2", short, "unjustified-%s-%s" % (e["op"].lower(), e["ty"]), "%s (line %s): `%s` in %s of %s and %s is not `small literal + (a u8 "
+                                "widened to a larger type)`: it can overflow for bit indices / lengths up to 255 (panic in debug, wrap in release)"
+                                % (short, e["line"], e["op"], e["ty"], l, r), config=cfg)
+                elif e.kind == "narrow":
+                    seen.add(("cast", e["line"], e["col"]))
+                    if O is None:
+                        O = Order(p)
+                    st = O.struct(e["src"])
+                    if st and st[0] == "leading_zeros" and e["dst_ty"] == "u8":
+                        rep.ok("R17.2", short, "leading_zeros() as u8 (<= 128)")
+                    else:
+                        rep.bad("R17.2", short, "narrowing-cast-%s-%s" % (e["src_ty"], e["dst_ty"]), "%s (line %s): narrowing cast %s as %s of `%s`, which is not a "
+                                "leading_zeros() count" % (short, e["line"], e["src_ty"], e["dst_ty"], e["src"][:60]), config=cfg)
+        n_shift += len([x for x in want if x[0] == "shift"])
+        n_arith += len([x for x in want if x[0] == "arith"])
+        n_cast += len([x for x in want if x[0] == "cast"])
+        for site in sorted(want - seen, key=str):
+            rep.bad("R17.2" if site[0] != "shift" else "R17.1", short, "site-not-evaluated:%s" % site[0], "%s (line %s): this %s is written in the function but no interpreted path "
+                    "evaluates it: its safety is undecided" % (short, site[1], {"shift": "shift", "arith": "arithmetic operation", "cast": "narrowing cast"}[site[0]]),
+                    kind="unrecognised", config=cfg)
     rep.floor("shifts examined (%s)" % cfg, n_shift, 1)
     rep.floor("arithmetic operations examined (%s)" % cfg, n_arith, 1)
-    rep.floor("narrowing casts examined (%s)" % cfg, n_cast, 1 if cfg != "f:none" and cfg != "no-default" else 1)
+    rep.floor("narrowing casts examined (%s)" % cfg, n_cast, 1)
+    check_lcp(ctx, rep, cfg, F)
+    check_from_repr_len(ctx, rep, cfg, F)
     # ---- R17.3
     for i in F.impls:
         if (i.get("trait") or "").endswith("prefix::Prefix"):
@@ -154,29 +235,37 @@ def run_config(ctx, rep, cfg, F):
         else:
             rep.bad("R17.3", "Prefix::eq", "reads-other", "the default Prefix::eq calls %s: it must compare mask() and prefix_len() only "
                     "(repr() carries host bits)" % sorted(called), config=cfg)
-    b = F.body("Prefix::zero")
-    if b is not None:
-        calls = find_all(b["thir"]["body"], lambda n: n["k"] == "Call" and n["fun"]["k"] == "FnRef" and n["fun"]["name"] == "from_repr_len")
-        okz = bool(calls) and calls[0][0]["args"][1]["k"] == "Lit" and calls[0][0]["args"][1].get("int") == 0 and \
-            contains_call(calls[0][0]["args"][0], ("zero",))
-        if okz:
-            rep.ok("R17.3", "Prefix::zero", "from_repr_len(zero, 0)")
-        else:
-            rep.bad("R17.3", "Prefix::zero", "shape", "the default Prefix::zero is not from_repr_len(R::zero(), 0)", config=cfg)
-    b = F.body("Prefix::contains")
-    if b is not None:
-        root = b["thir"]["body"]
-        first = root["stmts"][0]["e"] if root.get("stmts") and root["stmts"][0]["k"] == "ExprStmt" else None
-        okc = False
-        if first is not None and first["k"] == "If":
-            c = first["cond"]
-            okc = c["k"] == "Binary" and c["op"] in ("Gt", "Lt", "Ge", "Le") and len(contains_call(c, ("prefix_len",))) == 2 and \
-                bool(find_all(first["then"], lambda n: n["k"] == "Return"))
-        if okc:
-            rep.ok("R17.3", "Prefix::contains", "lengths compared before masking")
-        else:
-            rep.bad("R17.3", "Prefix::contains", "shape", "the default Prefix::contains does not start by rejecting a longer self "
-                    "(comparison of the two prefix_len() with an early return)", config=cfg)
+    # the default zero() constructs (zero representation, length 0)
+    if zero_paths is not None:
+        for p in zero_paths:
+            if p.result[0] != "ret":
+                continue
+            cons = [e for e in p.events if e.kind == "construct"]
+            if cons and Order.strip(cons[-1]["len"]) == "0" and [Order.strip(x) for x in cons[-1]["others"]] == ["zero()"]:
+                rep.ok("R17.3", "Prefix::zero", "from_repr_len(zero, 0)")
+            else:
+                rep.bad("R17.3", "Prefix::zero", "shape", "the default Prefix::zero does not construct (zero representation, length 0): %s"
+                        % ([(e["len"], e["others"]) for e in cons] or repr(p.result[1])[:80]), config=cfg)
+    # the default contains() answers true only on paths that established len(self) <= len(other)
+    if contains_paths is not None:
+        nt = 0
+        for p in contains_paths:
+            if p.result[0] != "ret" or not isinstance(p.result[1], BoolV):
+                if p.result[0] == "ret":
+                    rep.bad("R17.3", "Prefix::contains", "result", "the default Prefix::contains returns %r: not a decided boolean" % (p.result[1],), kind="unrecognised", config=cfg)
+                continue
+            O = Order(p)
+            if not O.consistent():
+                continue
+            if p.result[1].b:
+                nt += 1
+                if O.leq("prefix_len(*self)", "prefix_len(*other)"):
+                    rep.ok("R17.3", "Prefix::contains", "true only after len(self) <= len(other)")
+                else:
+                    rep.bad("R17.3", "Prefix::contains", "longer-self-may-contain", "the default Prefix::contains answers true on a path that has not established "
+                            "self.prefix_len() <= other.prefix_len(): a longer prefix can never contain a shorter one (path facts: %s)"
+                            % "; ".join("%s %s %s=%s" % (e["l"][:30], e["op"], e["r"][:30], e["res"]) for e in p.events if e.kind == "cmp")[:300], config=cfg)
+        rep.floor("paths of the default contains() answering true (%s)" % cfg, nt, 1)
 
 
 # ---------------------------------------------------------------- R17.4 / R17.5: uninterpreted-function evaluation + order facts
@@ -251,6 +340,7 @@ class Order:
     def __init__(self, p):
         self.le = {}
         self.lt = set()
+        self.ne = set()
         self.terms = {}
         for e in p.events:
             if e.kind == "order":
@@ -261,6 +351,8 @@ class Order:
                 a, b, op, res = e["l"], e["r"], e["op"], e["res"]
                 if not res:
                     op = {"Eq": "Ne", "Ne": "Eq", "Lt": "Ge", "Le": "Gt", "Gt": "Le", "Ge": "Lt"}[op]
+                if op == "Ne":
+                    self.ne.add((self.strip(a), self.strip(b)))
                 if op == "Eq":
                     self.add(a, b, False)
                     self.add(b, a, False)
@@ -301,6 +393,14 @@ class Order:
 
     def equal(self, a, b):
         return self.leq(a, b) and self.leq(b, a)
+
+    def differs(self, a, b):
+        """a != b established: a recorded disequality between terms equal to a and b, or a strict order"""
+        a, b = self.strip(a), self.strip(b)
+        for x, y in self.ne:
+            if (self.equal(x, a) and self.equal(y, b)) or (self.equal(x, b) and self.equal(y, a)):
+                return True
+        return any((self.equal(x, a) and self.equal(y, b)) or (self.equal(x, b) and self.equal(y, a)) for x, y in self.lt)
 
     def consistent(self):
         return not any(self.leq(b, a) for a, b in self.lt)
